@@ -74,6 +74,15 @@ PROPS = {
         'level_text': 'Theorems over any commutative group, instantiated with the canonical setsum values (setsumGrp, proved a group): every store transaction balances (tx_balances), the verifier\'s chain/balance/discard pass accepts every chain of store-written transactions and the last output is the sum over the live files (verifier_accepts), one altered digest or one altered file setsum is rejected (tamper_*). The driver runs Blue.Books.verify over setsumGrp on the records of every fragment the real store writes (and on tampered copies) and compares with the real ManifestVerifier; the oracle checks manifest O = sum of listed SST setsums = setsums recomputed from stored entries, and that LsmVerifier passes on the quiescent store return ok.',
         'level_note': 'Trusted: Lean kernel; axioms propext, Classical.choice, Quot.sound; single-step hooks; CRC-32C crate for tampered copies; setsum-of-contents per file checked not proved; collision resistance assumed for the rejection half.',
     },
+    'C08': {
+        'trusted': [STEP, FS, 'directory listings are read with std::fs::read_dir between operations'],
+        'assumptions': [STEP, 'no reader snapshot is held across operations in these histories (lazy cursors do not keep their VersionRef: D-5, see C07)',
+                        'crash points inside a verifier pass are covered by C02\'s crash machinery, not here',
+                        'reopen on a state with key- and timestamp-overlapping files is known finding D-9 (C01)'],
+        'partial': ['verifier_unlinks_only_logged_trash and verifier_crash_safe are checked on the real directory per run (what each pass removed; reopen and full read-back after every pass), not proved: there is no Lean model of LsmVerifier\'s own manifest yet'],
+        'level_text': 'Theorems: the reference-counting invariant of install_version/explicit_ref/explicit_unref/VersionRef is preserved by every event and implies that every file of every held version (the current one included) is in sst/ (live_files_stay); StoreCrash.crash_recover gives the crash half (every manifest-named SST present and whole at every crash point, both persistence models). The model step function is replayed against the real sst/ and trash/ listings after every version install of seeded store histories; the oracle checks what every verifier pass removed and reopens + reads everything back after each pass.',
+        'level_note': 'Trusted: Lean kernel; axioms propext, Classical.choice, Quot.sound; single-step hooks; POSIX directory semantics. Verifier behaviour is observed, not modelled.',
+    },
     'C14': {
         'post': c14_post,
         'trusted': [HASH],
